@@ -59,6 +59,7 @@ def main():
             return 2
         env = dict(os.environ)
         env["NUMBA_CACHE_DIR"] = os.path.join(scratch, "nb")
+        env["PYTHONPATH"] = wt          # the demo lives outside the tree: make `import corankco` resolve to the copy
         demo = os.path.join(d, "demo.py")
         if not skip_confirm:
             rc, o = run([PY, "-m", "pytest", "-q", "-p", "no:cacheprovider", "-x", "tests"], cwd=wt, env=env)
@@ -68,6 +69,7 @@ def main():
             out["demo_fails_with_change"] = rc != 0
             env2 = dict(env)
             env2["NUMBA_CACHE_DIR"] = os.path.join(scratch, "nb2")
+            env2["PYTHONPATH"] = clean
             rc, o = run([PY, demo], cwd=clean, env=env2, timeout=900)
             out["demo_passes_without"] = rc == 0
         results = {}
